@@ -275,7 +275,7 @@ def _clone(n):
     return ast.parse(ast.unparse(n)).body[0]
 
 
-def inline_single_callers(modules: dict, max_sites: int = 1, max_body: int = 12, known=()) -> list:
+def _inline_pass(modules: dict, max_sites: int, max_body: int, known, tried: set) -> list:
     """N5: a private function / method (`_name`, not dunder) that is defined exactly once in the package, is not
     decorated, not a generator, not recursive, never used as a value, and is called from exactly ONE site - which lies
     in the same module (same class for a method called as `self._name(...)` / `cls._name(...)`) and has one of the forms
@@ -318,11 +318,18 @@ def inline_single_callers(modules: dict, max_sites: int = 1, max_body: int = 12,
             elif isinstance(n, ast.Constant) and isinstance(n.value, str) and n.value in defs:
                 other[n.value] = other.get(n.value, 0) + 1          # getattr(self, "_name") and the like
     done = []
-    for name in sorted(defs):
+    cand = [n_ for n_ in sorted(defs) if n_ not in known and n_ not in tried and len(defs[n_]) == 1 and not other.get(n_) and 1 <= len(calls.get(n_, [])) <= max_sites]
+    # callees first: a helper whose body still calls another candidate waits for a later pass (its body would carry
+    # new call sites of that candidate into its callers)
+    def calls_candidate(h_):
+        return any((isinstance(x, ast.Attribute) and x.attr in cand) or (isinstance(x, ast.Name) and x.id in cand) for st in h_.body for x in ast.walk(st)
+                   if not (isinstance(x, ast.Name) and isinstance(x.ctx, ast.Store)))
+    for name in cand:
         ds = defs[name]
-        if name in known or len(ds) != 1 or other.get(name) or not (1 <= len(calls.get(name, [])) <= max_sites):
-            continue
         hm, hcls, h = ds[0]
+        if any(n2 != name and ((isinstance(x, ast.Attribute) and x.attr == n2) or (isinstance(x, ast.Name) and x.id == n2)) for n2 in cand for st in h.body for x in ast.walk(st)):
+            continue
+        tried.add(name)
         if len(calls[name]) > 1 and len(h.body) > max_body:
             continue
         plan_sites = calls[name]
@@ -330,11 +337,29 @@ def inline_single_callers(modules: dict, max_sites: int = 1, max_body: int = 12,
         results = [_inline_one(name, hm, hcls, h, cm, call, dry=True) for cm, call in plan_sites]
         if not all(results):
             continue
+        results = []
         for cm, call in plan_sites:
             r = _inline_one(name, hm, hcls, h, cm, call, dry=False)
             if r:
                 done.append(r)
+            results.append(r)
+        if all(results):
+            # every call site now carries the body: the definition itself is dead for the analysis (package-wide
+            # who-may-call scans must not see the same statements a second time, outside their callers' context)
+            owner_body = hcls.body if hcls is not None else hm.tree.body
+            owner_body[:] = [st for st in owner_body if st is not h] or [ast.Pass(lineno=getattr(h, "lineno", 1))]
     return done
+
+
+def inline_single_callers(modules: dict, max_sites: int = 1, max_body: int = 12, known=()) -> list:
+    """N5 driver: passes of _inline_pass until nothing more is spliced (callees before callers)."""
+    out, tried = [], set()
+    for _ in range(6):
+        got = _inline_pass(modules, max_sites, max_body, known, tried)
+        out.extend(got)
+        if not got:
+            break
+    return out
 
 
 def _inline_one(name, hm, hcls, h, cm, call, dry):
